@@ -59,8 +59,10 @@ fn op_kind(op: &Op) -> &'static str {
         Op::Holding { .. } => "holding",
         Op::Require(..) => "require",
         Op::SetBest(..) => "set_best",
+        Op::SetBestHere(..) => "set_best_here",
         Op::SetWhileBorrowed(..) => "set_value-while-borrowed",
         Op::GetWhileBorrowedMut(..) => "try_get_value-while-borrowed-mut",
+        Op::MultiWrite { .. } => "try_get_multiple_mut",
     }
 }
 
